@@ -105,6 +105,8 @@ def gen_module(rng, n, names, ctx_choice, penv, pc, pu, focus):
                     g = rng.choice(names[:2] if pick(rng, 0.6) else names)
                     d[g] = ["opt_%s_%s.c" % (n, g)]
                 srcs.append(d)
+            if pick(rng, 0.1) and len(srcs) > 1 and isinstance(srcs[-1], dict):
+                srcs = [s for s in srcs if isinstance(s, dict)]            # a module with optional sources only
             m["sources"] = srcs
         if pick(rng, 0.03 if focus != "build" else 0.08): m["is_global_build_dep"] = True
         # downloaded sources (nothing is fetched at generation time: tag files, phony statements, aliases)
